@@ -509,7 +509,9 @@ def do_grpc(results):
 
     def resolve_type(t):
         if t["kind"] == "wkt":
-            gp = importlib.import_module("betterproto.lib.google.protobuf")
+            # the bundled classes the generated package itself uses for its fields under this configuration
+            gp = importlib.import_module("betterproto.lib.pydantic.google.protobuf" if spec.get("flavour") == "pydantic"
+                                         else "betterproto.lib.google.protobuf")
             return getattr(gp, t["name"])
         return find_class(t["module"], t["flat"], ("message",))
 
